@@ -195,3 +195,43 @@ def nested(draw, max_depth=40):
     else:  # nested sections / tables in cells
         text = "".join("\n{|\n|" for _ in range(min(depth, 40))) + core + "".join("\n|}" for _ in range(draw(st.sampled_from([0, depth]))))
     return depth, text
+
+
+# ---- misnested containers: element trees whose children ignore the containment rules -------------------
+FAMILIES = [
+    ["table", "tr", "td", "#text", "span"],
+    ["ul", "li", "#text", "table", "tr"],
+    ["table", "tr", "td", "th", "caption", "span", "#text"],
+    ["table", "tr", "td", "#text", "ul", "li"],
+    ["ul", "ol", "li", "dl", "dt", "dd", "div", "#text"],
+    ["table", "tr", "td", "li", "ul", "center", "div", "p", "#text", "{|", "|-", "|"],
+]
+
+
+@st.composite
+def misnest(draw):
+    """text of a small element tree over one family of container tags in which any node may hold any other
+    (a table directly in a row, text in a row, a cell in a list, ...); close tags are sometimes left out"""
+    fam = draw(st.sampled_from(FAMILIES))
+    budget = [draw(st.integers(4, 24))]
+
+    def node(depth):
+        budget[0] -= 1
+        t = draw(st.sampled_from(fam))
+        if t == "#text":
+            return draw(st.sampled_from(["x", "word ", "a b", "\n", "\n\n"]))
+        if t in ("{|", "|-", "|"):
+            return "\n" + t + draw(st.sampled_from(["", " ", "\n"]))
+        inner = ""
+        if depth < 5:
+            for _ in range(draw(st.integers(0, 3))):
+                if budget[0] <= 0:
+                    break
+                inner += node(depth + 1)
+        close = "</%s>" % t if draw(st.integers(0, 3)) else ""
+        return "<%s>" % t + inner + close
+
+    out = ""
+    while budget[0] > 0:
+        out += node(0)
+    return out
